@@ -385,7 +385,8 @@ def install_points():
     mods = sk.load_node()
     N = mods["node"].Node
     return sched.install({N._handle_connections: r"peer_sockets|self\.connections\.get|_list\.append|_list \+=|select\.select",
-                          N.close_connection_socket: None, N.remove_peer_connection: None, N.receive_cea: r"close_connection_socket|result_code"})
+                          N.close_connection_socket: None, N.remove_peer_connection: None, N.receive_cea: r"close_connection_socket|result_code",
+                          N.receive_cer: r"self\.connections|origin_host == cer_origin_host", N._add_peer_connection: None})
 
 
 def cea_rejected_vs_io_loop(decisions, rc1=3010):
@@ -430,12 +431,67 @@ def cea_rejected_vs_io_loop(decisions, rc1=3010):
         w.close()
 
 
+def cer_vs_table_change(decisions, other="loss"):
+    """A CER is processed (by its connection's reader thread) while another connection is removed from, or a new one
+    added to, the node's tables by the I/O thread in the same instant.  One schedule."""
+    from dv import sched
+    w = W.NodeWorld({"peers": [{"name": f"peer{i + 1}.example", "ip": [f"10.1.1.{i + 1}"]} for i in range(3)],
+                     "apps": [{"app_id": 4, "auth": True, "peers": [0, 1, 2], "handler": "answer"}],
+                     "node_timers": {"idle": 5000, "dwa": 50, "cer": 50, "cea": 50, "wakeup": 5}})
+    try:
+        w.start()
+        b = w.handshake_in("peer2.example", auth=[4], ip="10.1.1.2", hbh=0x102)
+        c3 = w.handshake_in("peer3.example", auth=[4], ip="10.1.1.3", hbh=0x103)
+        a = w.accept("10.1.1.1")
+        a.host = "peer1.example"
+        ex = sched.Explorer(decisions)
+        sched.attach(w.k, ex)
+        w.feed_msg(a, {"k": "CER", "host": "peer1.example", "auth": [4], "hbh": 0x101, "e2e": 0x101}, run=False)
+        if other == "loss":
+            b.peer_closed = True
+            b.remote.close()
+        else:
+            w.net.connect_to(W.NODE_IP, 3868, "10.1.1.9")       # a newcomer is accepted at the same moment
+        ex.armed = True
+        w.k.run()
+        ex.armed = False
+        w.advance(1)
+        problems = []
+        ceas = [f for f in a.refresh() if f.code == W.CMD_CE and not f.is_request]
+        if len(ceas) != 1 or ceas[0].result_code() != 2001:
+            problems.append(("cer-not-accepted", f"CER of a known peer sharing an application answered with {[f.brief() for f in a.out]}"))
+        nca = w.node_conn_for(a)
+        if nca is None or nca.state not in w.mods["peer"].PEER_READY_STATES:
+            problems.append(("not-ready", "the connection did not become ready"))
+        for sig, d in W.monitor_threads(w):
+            problems.append((f"thread-died/{sig}", d))
+        return ex.trace, problems
+    finally:
+        w.close()
+
+
 def schedule_part(rec, shard, nshards, thorough):
     from dv import sched
     from dv.common import fp
     info = install_points()
     if shard == 0:
         rec.extra["preemption_functions"] = info
+    for other in ("loss", "newcomer"):
+        holder2 = {}
+
+        def run_two(dec, other=other):
+            tr, problems = cer_vs_table_change(dec, other)
+            holder2["last"] = problems
+            return tr
+        n2 = 0
+        for dec, trace in sched.enumerate_schedules(run_two, 2 if thorough else 1, shard, nshards):
+            case = {"cer_vs_table_change": other, "schedule": {str(i): c for i, c in sorted(dec.items())}}
+            for kind, detail in holder2["last"]:
+                rec.violation(f"C06/concurrent-cer/{kind}", case, detail)
+            n2 += 1
+            rec.case(fp("sched-cer", other, tuple(sorted(dec.items()))) if dec else None,
+                     ["schedule-exploration", f"cer-vs:{other}", f"deviations:{len(dec)}"], sample=lambda: dict(case, choice_points=len(trace)))
+        rec.extra["cer_vs_table_schedules"] = rec.extra.get("cer_vs_table_schedules", 0) + n2
     holder = {}
 
     def run_one(dec):
@@ -545,4 +601,14 @@ def replay_schedule(doc):
 def replay(doc):
     if doc["case"].get("cea_rejected_vs_io_loop"):
         return replay_schedule(doc)
+    if doc["case"].get("cer_vs_table_change"):
+        install_points()
+        _, problems = cer_vs_table_change({int(i): c for i, c in doc["case"]["schedule"].items()}, doc["case"]["cer_vs_table_change"])
+        sigs = [f"C06/concurrent-cer/{k}" for k, _ in problems]
+        if doc["signature"] in sigs:
+            print(f"  replayed: {problems[0][1][:300]}")
+            print(f"VIOLATION property={PID} replay=(replay)")
+            return 1
+        print(f"[{PID}] replay: signature {doc['signature']} does not reproduce (got {sigs})")
+        return 0
     return generic_replay(PID, evaluate, doc)
